@@ -228,7 +228,7 @@ def build_cases(ctx, rng, n):
 def run(ctx, model_ok):
     rng = ctx.rng
     thorough = ctx.tier == "thorough"
-    n_base = 9000 if thorough else 1000
+    n_base = 25000 if thorough else 1000
     n_layouts = 5 if thorough else 3
     chunk = 1500
     state = {"reported": {}, "sampled": set()}
